@@ -431,6 +431,11 @@ var seed = maphash.MakeSeed()
 
 // hashString computes the hash of s.
 func hashString(s string) uint32 {
+	if verifEnabled {
+		if h, ok := verifHashString(s); ok {
+			return h
+		}
+	}
 	if len(s) >= 12 {
 		// Call the Go runtime's optimized hash implementation,
 		// which uses the AES instructions on amd64 and arm64 machines.
